@@ -542,7 +542,7 @@ theorem parseOne_post (cfg : Cfg) (fs : FS) (root : APath) (hc : CleanImports cf
           obtain ⟨q, hq, hfq⟩ := hres1 fl p hne'
           exact ⟨q, List.mem_append_left _ hq, hfq⟩
       · show res1.errors ++ _ = _
-        rw [herr1]; simp only [List.nil_append, List.append_assoc]
+        rw [herr1]; simp only [List.nil_append]
       · rw [List.map_append, specFrom_append, progRegistry_files, ← hreg1]
         refine List.Perm.append hperm1 ?_
         simp only [List.map_cons, List.map_nil, specFrom, List.append_nil, hpf]
@@ -704,5 +704,100 @@ theorem front_single_file (cfg : Cfg) (fs : FS) (builtins : Registry) (root : AP
     (fun f hf => by simp only [List.mem_singleton] at hf; subst hf; exact hpos)
   rw [violationsOrdered_single] at hperm
   exact ⟨ds, hfront, hperm⟩
+
+/-! ### a computable sufficient check of `CleanImports`
+
+`CleanImports` quantifies over the reachable nodes (file, spelling) of the import graph. Given a candidate list of
+nodes and a candidate finish order, `cleanCheck` verifies by evaluation that the list contains the root, is closed
+under `@import` lines, that every node is inside the grammar, has only `@import` lines, all of which resolve, and that
+every import leads to a file earlier in the order (so there is no cycle). It is used with `#guard` below. -/
+
+def lineOk (cfg : Cfg) (fs : FS) (nodes : List (APath × APath)) (rank : APath → Nat) (n : APath × APath) (l : LoadAt) : Bool :=
+  l.isImport &&
+    match findFile cfg fs n.2 (filepathText l.lit) with
+    | none => false
+    | some cp => nodes.contains (cp.2, cp.1.path) && decide (rank cp.2 < rank n.1)
+
+def nodeOk (cfg : Cfg) (fs : FS) (nodes : List (APath × APath)) (rank : APath → Nat) (n : APath × APath) : Bool :=
+  (match fs.get n.1 with
+    | some (.idl text) => (parseText text).isSome
+    | _ => false) && (loadsOf fs n.1).all (lineOk cfg fs nodes rank n)
+
+def cleanCheck (cfg : Cfg) (fs : FS) (root : APath) (nodes : List (APath × APath)) (order : List APath) : Bool :=
+  nodes.contains (normPath root, root) && nodes.all (nodeOk cfg fs nodes (fun p => order.idxOf p))
+
+theorem lineOk_spec (cfg : Cfg) (fs : FS) (nodes : List (APath × APath)) (rank : APath → Nat) (n : APath × APath) (l : LoadAt)
+    (h : lineOk cfg fs nodes rank n l = true) :
+    l.isImport = true ∧ ∃ c p, findFile cfg fs n.2 (filepathText l.lit) = some (c, p) ∧ (p, c.path) ∈ nodes ∧ rank p < rank n.1 := by
+  unfold lineOk at h
+  rw [Bool.and_eq_true] at h
+  refine ⟨h.1, ?_⟩
+  have h2 := h.2
+  cases hf : findFile cfg fs n.2 (filepathText l.lit) with
+  | none => rw [hf] at h2; cases h2
+  | some cp =>
+    rw [hf] at h2
+    simp only [Bool.and_eq_true, decide_eq_true_eq, List.contains_iff_mem] at h2
+    exact ⟨cp.1, cp.2, rfl, h2.1, h2.2⟩
+
+theorem nodeOk_spec (cfg : Cfg) (fs : FS) (nodes : List (APath × APath)) (rank : APath → Nat) (n : APath × APath)
+    (h : nodeOk cfg fs nodes rank n = true) :
+    Parsable fs n.1 ∧ ∀ l ∈ loadsOf fs n.1, lineOk cfg fs nodes rank n l = true := by
+  unfold nodeOk at h
+  rw [Bool.and_eq_true, List.all_eq_true] at h
+  refine ⟨?_, h.2⟩
+  have h1 := h.1
+  cases hf : fs.get n.1 with
+  | none => rw [hf] at h1; cases h1
+  | some fc =>
+    rw [hf] at h1
+    cases fc with
+    | idl text =>
+      simp only at h1
+      cases hp : parseText text with
+      | none => rw [hp] at h1; cases h1
+      | some f => exact ⟨text, f, hf, hp⟩
+    | ext d => cases h1
+    | badExt => cases h1
+    | notText pos => cases h1
+
+/-- **`cleanCheck` is sound**: if the check evaluates to `true` for some candidate node list and order, the import
+    graph satisfies `CleanImports`. -/
+theorem cleanCheck_sound (cfg : Cfg) (fs : FS) (root : APath) (nodes : List (APath × APath)) (order : List APath)
+    (h : cleanCheck cfg fs root nodes order = true) : CleanImports cfg fs root := by
+  unfold cleanCheck at h
+  rw [Bool.and_eq_true, List.all_eq_true, List.contains_iff_mem] at h
+  obtain ⟨hroot, hall⟩ := h
+  have hedge : ∀ n n', n ∈ nodes → ImportEdge cfg fs n n' → n' ∈ nodes ∧ order.idxOf n'.1 < order.idxOf n.1 := by
+    intro n n' hn ⟨l, hl, _, c, hfind, hsp⟩
+    obtain ⟨_, c', p', hfind', hmem, hlt⟩ := lineOk_spec cfg fs nodes _ n l ((nodeOk_spec cfg fs nodes _ n (hall n hn)).2 l hl)
+    rw [hfind] at hfind'
+    cases hfind'
+    obtain ⟨a, b⟩ := n'
+    simp only at hsp hmem hlt ⊢
+    subst hsp
+    exact ⟨hmem, hlt⟩
+  have hreach : ∀ n, Reachable cfg fs root n → n ∈ nodes := by
+    intro n hn
+    induction hn with
+    | root => exact hroot
+    | step _ he ih => exact (hedge _ _ ih he).1
+  have hpath : ∀ n n', ImportPath cfg fs n n' → n ∈ nodes → n' ∈ nodes ∧ order.idxOf n'.1 < order.idxOf n.1 := by
+    intro n n' hp
+    induction hp with
+    | single he => exact fun hn => hedge _ _ hn he
+    | tail _ he ih =>
+      intro hn
+      obtain ⟨hb, hlt⟩ := ih hn
+      obtain ⟨hc, hlt'⟩ := hedge _ _ hb he
+      exact ⟨hc, Nat.lt_trans hlt' hlt⟩
+  refine ⟨fun n hn => (nodeOk_spec cfg fs nodes _ n (hall n (hreach n hn))).1, fun n hn l hl => ?_, fun n hn l hl => ?_,
+    fun n n' hn hp heq => ?_⟩
+  · exact (lineOk_spec cfg fs nodes _ n l ((nodeOk_spec cfg fs nodes _ n (hall n (hreach n hn))).2 l hl)).1
+  · obtain ⟨_, c, p, hfind, _⟩ := lineOk_spec cfg fs nodes _ n l ((nodeOk_spec cfg fs nodes _ n (hall n (hreach n hn))).2 l hl)
+    rw [hfind]; exact fun h => by cases h
+  · have := (hpath n n' hp (hreach n hn)).2
+    rw [heq] at this
+    exact Nat.lt_irrefl _ this
 
 end Pydjinni.Front
